@@ -96,6 +96,9 @@ type Inode struct {
 	MTime  uint64
 	ATime  uint64
 	Gen    uint64
+	// Synth > 0: a synthetic directory listing of that many entries named
+	// e00000, e00001, … generated on the fly (for msize boundary studies).
+	Synth int
 }
 
 func (i *Inode) Child(name string) *Inode {
@@ -1305,6 +1308,16 @@ func (h *Handle) Readdir(offset uint64, count uint32) (p9.Dirents, error) {
 		return nil, c.Err
 	}
 	var out p9.Dirents
+	if n.Synth > 0 {
+		for i := int(offset); uint64(i) < uint64(n.Synth) && offset < uint64(n.Synth); i++ {
+			if (fs.ReaddirMax > 0 && len(out) >= fs.ReaddirMax) || uint32(len(out)) >= count {
+				break
+			}
+			out = append(out, p9.Dirent{QID: p9.QID{Type: p9.TypeRegular, Path: uint64(1000000 + i)}, Offset: uint64(i + 1), Type: p9.TypeRegular, Name: fmt.Sprintf("e%05d", i)})
+		}
+		c.RDir = out
+		return out, nil
+	}
 	for i := int(offset); i < len(n.names) && offset < uint64(len(n.names)); i++ {
 		if fs.ReaddirMax > 0 && len(out) >= fs.ReaddirMax {
 			break
